@@ -10,6 +10,7 @@ package main
 import (
 	"fmt"
 	"math/rand"
+	"time"
 
 	"github.com/apache/thrift/lib/go/thrift"
 
@@ -97,7 +98,61 @@ func probeSpecs() (bigs, bursts []*seqSpec) {
 		bursts = append(bursts, s)
 		id++
 	}
+	// op id "" and friends, one request at a time, on every kind of server; and
+	// a NATS server whose queue holds requests for longer than its high watermark
+	for _, leg := range []string{"pipe", "tcp", "http", "nats", "shared"} {
+		for _, proto := range rig.Protocols {
+			s := &seqSpec{id: id, leg: leg, proto: proto, mode: "probe-opid-forms", conns: 1, workers: 1, lockstep: true, rng: fixed}
+			if leg == "shared" {
+				s.conns = 2
+			}
+			for i, form := range []string{"", "007", "-", "+5", "-", "18446744073709551616", "-", "req-42", "-", "1e3", "-", "18446744073709551615"} {
+				r := newRequest(fixed, proto, []int{kPing, kAdd, kEchoOK}[i%3], genOpts{stream: true, smallOnly: true})
+				r.idx = i
+				if i%2 == 1 || i == 0 {
+					setOpid(r, proto, form)
+				}
+				s.reqs = append(s.reqs, r)
+			}
+			s.perConn = [][]*request{s.reqs}
+			s.sentinel = []*request{newSentinel(fixed, proto)}
+			s.sentinel[0].idx = 100000
+			bursts = append(bursts, s)
+			id++
+		}
+	}
+	for _, proto := range rig.Protocols {
+		s := &seqSpec{id: id, leg: "nats", proto: proto, mode: "probe-backlog-beyond-high-watermark", conns: 1, workers: 1, watermark: 5 * time.Millisecond, rng: fixed}
+		for i := 0; i < 12; i++ {
+			r := newRequest(fixed, proto, []int{kAdd, kPing, kEchoOK, kGetBig}[i%4], genOpts{smallOnly: true})
+			r.idx = i
+			if v, ok := plans.Load(r.token); ok {
+				v.(*plan).delay = 8 * time.Millisecond
+			}
+			s.reqs = append(s.reqs, r)
+		}
+		s.perConn = [][]*request{s.reqs}
+		s.sentinel = []*request{newSentinel(fixed, proto)}
+		bursts = append(bursts, s)
+		id++
+	}
 	return bigs, bursts
+}
+
+// setOpid rebuilds r's frame with the given _opid value (other headers and the
+// message unchanged).
+func setOpid(r *request, proto, opid string) {
+	hdrs, payload, err := wire.ParseFrame(r.frame)
+	if err != nil {
+		panic(err)
+	}
+	hdrs["_opid"] = opid
+	r.opid = opid
+	r.opidForm = "non-canonical"
+	if opid == "" {
+		r.opidForm = "empty"
+	}
+	r.frame = wire.BuildFrame(wire.MapToPairs(hdrs), payload)
 }
 
 // bigEcho is an echo of a BigMap payload of about n bytes.
